@@ -34,6 +34,9 @@ pub enum VerifEvent {
     /// The encoder returned, reporting these clauses as conflicting with the
     /// current decisions.
     EncodeResult(Vec<u32>),
+    /// The conflict report is about to be computed from this clause, which is
+    /// falsified at the root level.
+    AnalyzeUnsolvable(u32),
 }
 
 /// A unit of work of the encoder (`u32::MAX` is the root).
